@@ -899,7 +899,13 @@ def check_pause_structural(ck, prog, eng, layer):
             hk.outs = eng.run(name, OK, overrides={param: Sym.var(param)}, hooks=hk)
             return hk
     q = fn.qualname
+    from .. import interp as _interp
+    runs0 = _interp.GENERATOR_RUNS[0]
     regions = chunk_regions(run_region)
+    if _interp.GENERATOR_RUNS[0] != runs0:
+        raise AnalysisError('%s draws its chunks from a generator: the chunking loop and the '
+                            'loop that sends are two different loops; the loop rules cannot '
+                            'conclude' % q)
     atom = ('v', '@n')
     n_true = 0
     for r, hk in regions:
